@@ -146,7 +146,7 @@ func (c *c12Ctx) check(text string) {
 			rep.Count("He_accepted", 1)
 			printed, err := c12String(first.e)
 			if rep.DistinctNontrivial(kit.Hash("e", want)) {
-				rep.Sample(4, map[string]string{"door": "He", "text": text, "printed": printed})
+				rep.Sample(2, map[string]string{"door": "He", "text": text, "printed": printed})
 			}
 			if err != nil {
 				c.vio("printer_panic", "He", text, func() string { return err.Error() })
@@ -163,7 +163,7 @@ func (c *c12Ctx) check(text string) {
 			want := c12Canon(sel.Condition)
 			printed, perr := c12String(sel.Condition)
 			if rep.DistinctNontrivial(kit.Hash("e", want)) {
-				rep.Sample(8, map[string]string{"door": "Yc", "text": text, "printed": printed})
+				rep.Sample(3, map[string]string{"door": "Yc", "text": text, "printed": printed})
 			}
 			if c.doors["Yc"] {
 				rep.Count("Yc_accepted", 1)
@@ -199,7 +199,7 @@ func (c *c12Ctx) check(text string) {
 			want := c12CanonFields(sel.Fields, c12Norm{})
 			printed, perr := c12String(sel.Fields)
 			if rep.DistinctNontrivial(kit.Hash("f", want)) {
-				rep.Sample(10, map[string]string{"door": "Yf", "text": text, "printed": printed})
+				rep.Sample(4, map[string]string{"door": "Yf", "text": text, "printed": printed})
 			}
 			planned := make([]Expr, len(sel.Fields))
 			for i, f := range sel.Fields {
